@@ -1,12 +1,11 @@
 #!/bin/bash
-# Offline setup: pre-build every check binary (warms the Go build cache).
+# Offline setup: pre-build the binary of every check registered in MANIFEST.json (warms the Go build cache).
 set -u
 cd "$(dirname "$0")"
 export GOFLAGS=-mod=mod GOPROXY=off GOSUMDB=off GOTOOLCHAIN=local
 mkdir -p bin evidence replays
 rc=0
-for d in cmd/*/; do
-  n="$(basename "$d")"
-  go build -tags verif -o "bin/$n" "./cmd/$n" || rc=1
+for id in $(python3 -c "import json;print(' '.join(c['property_id'].lower() for c in json.load(open('MANIFEST.json'))['checks']))"); do
+  go build -tags verif -o "bin/$id" "./cmd/$id" || rc=1
 done
 exit $rc
